@@ -73,7 +73,7 @@ def _proc():
 @st.composite
 def _case(draw):
     ndim = draw(st.sampled_from([1, 1, 2]))
-    n = draw(st.integers(3, 9))
+    n = draw(gen.count(3, 9, 20, one_in=8))
     eq = draw(st.booleans())
     L0 = draw(st.integers(1, 6))
     series = []
